@@ -160,6 +160,14 @@ def run(case):
             return out
         if out.check(list(sg.columns) == SG_COLUMNS, "memory:sg_columns", list(sg.columns)):
             check_sg_table(out, {c: sg[c].tolist() for c in SG_COLUMNS}, exp, reset, False, "memory")
+            # two live results: another list of the same length (this one, rows reversed and values negated) is converted while the
+            # first table is still held; the first table stays what it was
+            sg_keep = sg.copy()
+            other = m.df.iloc[::-1].copy()
+            for c_ in ("x", "y", "z", "phi", "score"):
+                other[c_] = -other[c_].to_numpy() - 1.0
+            call(out, "convert_to_sg_motl(other list)", lambda: cryomotl.StopgapMotl.convert_to_sg_motl(other.reset_index(drop=True), reset_index=not reset))
+            out.check(sg.equals(sg_keep), "memory:earlier_table_changed_by_converting_another_list", "")
         # write it too so that an import path can be exercised
         star_path = "mem.star"
         ok, _ = call(out, "write_out", lambda: m.write_out(star_path, reset_index=reset))
